@@ -208,6 +208,10 @@ func (h *harness) checkImage(eco, rel string, ir *claircore.IndexReport, st *mem
 	}
 	gotV := reportedFor(vr, p.vulnBin)
 	gotF := reportedFor(vr, p.fixedBin)
+	want = expandWants(want)
+	if (eco == "debian" || eco == "debianDistroless") && rel == strconv.Itoa(debianWorldReleases[0].major) {
+		want = append(want, "ADV-debian-shared")
+	}
 	sort.Strings(want)
 	if strings.Join(gotV, " ") != strings.Join(want, " ") {
 		r.Fail("", fmt.Sprintf("%s: the vulnerable package is reported %v, expected exactly %v (distribution in the report: %s)", key, gotV, want, distsOf(ir)))
@@ -246,25 +250,11 @@ func (h *harness) pipelineRound(ctx context.Context, round int) {
 	fail := func(what string, err error) {
 		r.Fail("", fmt.Sprintf("pipeline: %s: %v", what, err))
 	}
-	// Besides the two advisories, a decoy whose package name is right but
-	// whose kind is wrong: feeds that name source packages get an advisory for
-	// a source package called like the binary, feeds that name binary
-	// packages one for a binary called like the source.  It must never be
-	// reported (the kinds differ).
-	advPair := func(p pkgPair, rel string, bySource bool) []adv {
-		vn, fn, decoy := p.vulnBin, p.fixedBin, p.vulnSrc
-		if bySource {
-			vn, fn, decoy = p.vulnSrc, p.fixedSrc, p.vulnBin
-		}
-		return []adv{{pkg: vn, fixed: p.fixIn, id: "ADV-" + rel + "-vuln"}, {pkg: fn, fixed: p.fixIn, id: "ADV-" + rel + "-fixed"},
-			{pkg: decoy, fixed: p.fixIn, id: "ADV-" + rel + "-decoy-kind"}}
-	}
-
 	// ---- advisories of every ecosystem and release into one store
 	apkP, debP, ubP, rpmP := h.genPair("apk"), h.genPair("deb"), h.genPair("deb"), h.genPair("rpm")
 	aadv := map[string][]adv{}
 	for _, e := range h.fx.Dirs["alpine"] {
-		aadv[e.Release] = advPair(apkP, "alpine-"+e.Release, true)
+		aadv[e.Release] = advSet("alpine", apkP, "alpine-"+e.Release, true)
 	}
 	w.alpineWorld(aadv)
 	if m, err := alpineRun(ctx, w); err != nil {
@@ -276,8 +266,9 @@ func (h *harness) pipelineRound(ctx context.Context, round int) {
 	}
 	dadv := map[string][]adv{}
 	for _, rel := range debianWorldReleases {
-		dadv[rel.code] = advPair(debP, "debian-"+strconv.Itoa(rel.major), true)
+		dadv[rel.code] = advSet("debian", debP, "debian-"+strconv.Itoa(rel.major), true)
 	}
+	dadv[debianWorldReleases[0].code] = append(dadv[debianWorldReleases[0].code], debianShared(debP))
 	w.debianWorld(debianWorldReleases, dadv)
 	if vs, err := debianRun(ctx, w); err != nil {
 		fail("debian updater", err)
@@ -288,7 +279,7 @@ func (h *harness) pipelineRound(ctx context.Context, round int) {
 	uadv := map[string][]adv{}
 	for _, s := range h.fx.UbuntuSeries {
 		series = append(series, ubSeries{version: s[0], name: s[1], active: true})
-		uadv[s[0]] = advPair(ubP, "ubuntu-"+s[0], false)
+		uadv[s[0]] = advSet("ubuntu", ubP, "ubuntu-"+s[0], false)
 	}
 	w.ubuntuWorld(series, uadv)
 	if m, err := ubuntuRun(ctx, w); err != nil {
@@ -300,7 +291,7 @@ func (h *harness) pipelineRound(ctx context.Context, round int) {
 	}
 	padv := map[string][]adv{}
 	for _, rel := range []string{"photon1", "photon2", "photon3"} {
-		padv[rel] = advPair(rpmP, "photon-"+rel, false)
+		padv[rel] = advSet("photon", rpmP, "photon-"+rel, false)
 	}
 	w.photonWorld(padv)
 	if m, err := photonRun(ctx, w); err != nil {
@@ -311,7 +302,7 @@ func (h *harness) pipelineRound(ctx context.Context, round int) {
 		}
 	}
 	for _, rel := range []aws.Release{aws.AmazonLinux1, aws.AmazonLinux2, aws.AmazonLinux2023} {
-		if vs, err := awsParse(ctx, rel, advPair(rpmP, "aws-"+string(rel), false)); err != nil {
+		if vs, err := awsParse(ctx, rel, advSet("aws", rpmP, "aws-"+string(rel), false)); err != nil {
 			fail("aws parser", err)
 		} else {
 			st.add(vs...)
@@ -319,7 +310,7 @@ func (h *harness) pipelineRound(ctx context.Context, round int) {
 	}
 	byP := map[string][]adv{}
 	for _, n := range []string{"5", "6", "7", "8", "9"} {
-		byP["Oracle Linux "+n] = advPair(rpmP, "oracle-"+n, false)
+		byP["Oracle Linux "+n] = advSet("oracle", rpmP, "oracle-"+n, false)
 	}
 	if vs, err := oracleRun(ctx, w, 2024, byP); err != nil {
 		fail("oracle updater", err)
@@ -352,10 +343,10 @@ func (h *harness) pipelineRound(ctx context.Context, round int) {
 	}
 	sfiles := map[string][]adv{}
 	for _, n := range []string{"12", "15"} {
-		sfiles["suse.linux.enterprise.server."+n+".xml.gz"] = advPair(rpmP, "suse-"+n, false)
+		sfiles["suse.linux.enterprise.server."+n+".xml.gz"] = advSet("suse", rpmP, "suse-"+n, false)
 	}
 	for _, n := range []string{"15.5", "15.6"} {
-		sfiles["opensuse.leap."+n+".xml.gz"] = advPair(rpmP, "leap-"+n, false)
+		sfiles["opensuse.leap."+n+".xml.gz"] = advSet("suse", rpmP, "leap-"+n, false)
 	}
 	w.suseWorld(sfiles)
 	if m, err := suseRun(ctx, w); err != nil {
@@ -384,6 +375,7 @@ func (h *harness) pipelineRound(ctx context.Context, round int) {
 	lines := []string{"PyPI", "RubyGems", "Go", "Maven", "npm"}
 	oadv := map[string][]osvAdv{
 		"PyPI": {{id: "ADV-pypi-vuln", ecosystem: "PyPI", name: pep503(pyRawV), purl: "pkg:pypi/" + pep503(pyRawV), rangeType: "ECOSYSTEM", intro: "0", fixed: pyP.fixIn},
+			{id: "ADV-pypi-multi", ecosystem: "PyPI", name: pep503(pyRawV), purl: "pkg:pypi/" + pep503(pyRawV), rangeType: "ECOSYSTEM", intro: "0", fixed: pyP.fixIn, before: []advPkg{{"aaa-verif-other", pyP.fixIn}}},
 			{id: "ADV-pypi-fixed", ecosystem: "PyPI", name: pep503(pyRawF), purl: "pkg:pypi/" + pep503(pyRawF), rangeType: "ECOSYSTEM", intro: "0", fixed: pyP.fixIn}},
 		"RubyGems": {{id: "ADV-gem-vuln", ecosystem: "RubyGems", name: rbP.vulnBin, purl: "pkg:gem/" + rbP.vulnBin, rangeType: "ECOSYSTEM", intro: "0", fixed: rbP.fixIn},
 			{id: "ADV-gem-fixed", ecosystem: "RubyGems", name: rbP.fixedBin, purl: "pkg:gem/" + rbP.fixedBin, rangeType: "ECOSYSTEM", intro: "0", fixed: rbP.fixIn}},
@@ -584,7 +576,7 @@ func (h *harness) pipelineRound(ctx context.Context, round int) {
 			q := pyP
 			q.vulnBin, q.fixedBin = strings.ToLower(pyRawV), strings.ToLower(pyRawF)
 			if strings.ToLower(pyRawV) == pep503(pyRawV) {
-				h.checkImage("python", "pypi", ir, st, q, "ADV-pypi-vuln")
+				h.checkImage("python", "pypi", ir, st, q, "ADV-pypi-vuln", "ADV-pypi-multi")
 			} else {
 				// the listed finding: a name with '.', '_' or a run of separators
 				// is indexed lower-cased but not normalised
@@ -604,7 +596,7 @@ func (h *harness) pipelineRound(ctx context.Context, round int) {
 					r.Fail("", fmt.Sprintf("python scanner did not report METADATA `Name: %s` as %q", pyRawV, q.vulnBin))
 				} else if got := reportedFor(vr, q.vulnBin); len(got) == 0 {
 					r.Fail("pypi-name-normalization", fmt.Sprintf("METADATA `Name: %s` is indexed as %q; the advisory for the PEP 503 name %q is not reported", pyRawV, q.vulnBin, pep503(pyRawV)))
-				} else if len(got) != 1 || got[0] != "ADV-pypi-vuln" {
+				} else if strings.Join(got, " ") != "ADV-pypi-multi ADV-pypi-vuln" {
 					r.Fail("", fmt.Sprintf("python package %q is reported %v", q.vulnBin, got))
 				}
 			}
